@@ -101,6 +101,26 @@ let () =
          let (s1, o) = run_key s0 (bytes_of rnd) in
          let ss = match s1 with KAbsent -> "A -" | KFile (c, m) -> "F " ^ hex_encode (string_of_chars c) ^ ":" ^ string_of_int (int_of_n m) | KDir -> "D -" | KParentMissing -> "P -" | KUnreadable -> "U -" in
          out_s (ss ^ " " ^ (match o with KeyOk k -> "OK " ^ str_of k | KeyFail -> "FAIL"))
+       | ["ATLAS"; ch; cst; hosts; logs; sz; ez; nowz; gz] ->
+         let rec z_of_int (n : int) : z = if n = 0 then Z0 else if n > 0 then Zpos (pos_of_int n) else Zneg (pos_of_int (- n)) in
+         let int_of_z = function Z0 -> 0 | Zpos p -> int_of_pos p | Zneg p -> - (int_of_pos p) in
+         let resp_of item = match String.split_on_char ':' item with
+           | ["S"; code; body] -> HStatus (nat_of_int (int_of_string code), chars_of (hex_decode body))
+           | ["C"; sent; body] -> HCut (nat_of_int (int_of_string sent), chars_of (hex_decode body))
+           | _ -> HReset in
+         let w = { w_challenge = (ch = "1"); w_cluster = resp_of cst;
+                   w_hosts = (if hosts = "!" then None else Some (List.map hex_decode (split_char ',' hosts)));
+                   w_logs = List.map resp_of (split_char ',' logs) } in
+         let gtbl = Hashtbl.create 16 in
+         List.iter (fun item -> match String.split_on_char ':' item with
+           | [k; v] -> Hashtbl.replace gtbl (hex_decode k) (if v = "!" then None else Some (hex_decode v)) | _ -> ()) (split_char ',' gz);
+         let gunzip b = match Hashtbl.find_opt gtbl (string_of_chars b) with Some (Some d) -> Some (chars_of d) | _ -> None in
+         let redact d = match run_io current current_consts !c !e d REof (fun _ -> Accept) None with (ROk, o) -> Some o | _ -> None in
+         let r = atlas_run gunzip redact (fun _ -> true) w (z_of_int (int_of_string sz)) (z_of_int (int_of_string ez)) (z_of_int (int_of_string nowz)) in
+         let tr = String.concat "," (List.map (function RCluster a -> if a then "C1" else "C0"
+                    | RLog (h, a, s1, e1) -> "L" ^ hex_encode h ^ ":" ^ (if a then "1" else "0") ^ ":" ^ string_of_int (int_of_z s1) ^ ":" ^ string_of_int (int_of_z e1)) r.r_trace) in
+         let outs = String.concat "," (List.map (fun (i, o) -> string_of_int (int_of_nat i) ^ ":" ^ hex_encode (string_of_chars o)) r.r_outs) in
+         out_s ((if tr = "" then "-" else tr) ^ " " ^ (if outs = "" then "-" else outs) ^ " " ^ string_of_int (List.length r.r_tmp_left) ^ " " ^ (match r.r_status with Exit0 -> "0" | Exit1 -> "1"))
        | ["CLI"; bits] ->
          let b i = bits.[i] = '1' in
          let f = { f_file = b 0; f_stdin = b 1; f_out = b 2; f_encrypt = b 3; f_regexp = b 4; f_fieldnames = b 5;
